@@ -45,7 +45,7 @@ def conncode_ValidateMapping : List String := ["portMappingService.GetPortMappin
 def forwardToSourceNode : List String := ["sendTunnelOpenResponseDirect", "tunnelConnMgr.CreateDedicatedConnection", "crossNodePool.Get", "WriteFrame", "runCrossNodeDataForwardDedicated"]
 def handleCrossNodeTargetConnection : List String := ["lookupTunnelRouting", "processCrossNodeForward"]
 def handleExistingBridge : List String := ["sendTunnelOpenResponseDirect", "cloudControl.GetPortMapping", "bridge.SetSourceConnection", "bridge.SetTargetConnection"]
-def handleTargetBridge : List String := ["bridgeLock.RLock", "handleCrossNodeTargetConnection", "bridge.GetMappingID", "bridge.SetTargetConnection"]
+def handleTargetBridge : List String := ["bridgeLock.RLock", "handleCrossNodeTargetConnectionAcked", "bridge.GetMappingID", "bridge.SetTargetConnection"]
 def handleTunnelOpen : List String := ["json.Unmarshal", "sendTunnelOpenResponseDirect", "findOrCreateControlConnection", "tunnelHandler.HandleTunnelOpen", "sendTunnelOpenResponseDirect", "bridgeLock.Lock", "bridge.GetMappingID", "rejectTunnelOfOtherMapping", "handleExistingBridge", "tunnelRouting.LookupWaitingTunnel", "rejectTunnelOfOtherMapping", "handleCrossNodeTargetConnection", "sendTunnelOpenResponseDirect", "isSourceClient", "handleSourceBridge", "handleTargetBridge"]
 def isSourceClient : List String := ["cloudControl.GetPortMapping", "extractClientID", "clientConn.IsAuthenticated", "clientConn.GetClientID"]
 def processCrossNodeForward : List String := ["handleLocalBridgeWait", "forwardToSourceNode"]
